@@ -1,6 +1,7 @@
 import NxProofs.RmcServer
 import NxProofs.RmcResult
 import NxProofs.RmcRequest
+import NxProofs.RmcServerObj
 /-!
 # C11 — an RMC server answers every request exactly once with the right outcome
 
@@ -28,6 +29,10 @@ structure frames `u8 version, u32 size, size bytes` per class (structure headers
 length-prefixed strings and buffers. `readRequest` models the generated `input.<type>(...)` statements over a schema
 read from the code under test; the harness's reference reader is its twin (compared on every case) and the model
 computes the `extract` outcome of every such request from the request's own body (`extractOf`).
+Registered OBJECTS and slow handlers (`NxModel/Nex/RmcServerObj.lean`): what is registered is an instance of the user's
+subclass of a generated class — it may be falsy (`__len__` / `__bool__` of a subclass keeping a registry or a queue) — and
+its user methods are coroutines that may await for any time. `handleTimed` = `generatedHandle` + `react` over the objects'
+classes and the time that passes; the correspondence drives the real loop on a virtual clock and compares answer and time.
 Statements only; proofs in `NxProofs/RmcServer.lean`, `NxProofs/RmcResult.lean`, `NxProofs/RmcRequest.lean`.
 -/
 namespace Nx.C11
@@ -351,5 +356,54 @@ example : extractOf exEnv true [.struct 1, .u64] (u8 0 ++ u32le 4 ++ exTarget.ta
 /-- an unregistered holder name is a KeyError -/
 example : extractOf exEnv true [.anydata] ([2, 0, 65, 0] ++ u32le 4 ++ u32le 0) = some .keyError := by rfl
 end FramingExamples
+
+/-! registered objects that are falsy, handlers that take long -/
+
+/-- the truth values of the registered objects are irrelevant: objects of the same classes — truthy, falsy, changing
+    from request to request — give the same handler run, the same answer and take the same time -/
+theorem falsy_object_answered (objs objs' : List Obj) (hsame : objs.map (·.srv) = objs'.map (·.srv))
+    (req : Msg) (ex : Option Exc) (p : Prog) : handleTimed objs req ex p = handleTimed objs' req ex p :=
+  handleTimed_truth_irrelevant objs objs' hsame req ex p
+
+/-- however long the user's coroutine awaits before it returns / raises: what `handle()` did and the answer are those
+    of the coroutine that does the same at once -/
+theorem slow_handler_answered (objs : List Obj) (req : Msg) (ex : Option Exc) (p : Prog) :
+    (handleTimed objs req ex p).2 = (handleTimed objs req ex (.done p.outcome)).2 :=
+  handleTimed_waits_irrelevant objs req ex p
+
+/-- the answer is `react` of what the addressed object's generated `handle()` did with the coroutine's outcome — so
+    `one_response`, `outcome_table`, `noresponse_silent`, `unknown_method_not_implemented` … speak about it -/
+theorem timed_answer_is_react (objs : List Obj) (req : Msg) (ex : Option Exc) (p : Prog) :
+    (handleTimed objs req ex p).2.2 = react (registryOf (objServers objs)) req (handleTimedResult objs req ex p) ∧
+    (∀ srv mid, findServer req.protocol (objServers objs) = some srv → req.method = some mid →
+      handleTimedResult objs req ex p = generatedHandle srv mid ex p.outcome) :=
+  ⟨handleTimed_reaction objs req ex p, fun srv mid hs hm => handleTimed_result objs req ex p srv mid hs hm⟩
+
+/-- the loop is back at `recv()` exactly when the coroutine is done (no deadline cuts it short, nothing is sent early):
+    all of its awaiting if the dispatch reaches it, no time at all otherwise -/
+theorem handler_time_is_awaited (objs : List Obj) (req : Msg) (ex : Option Exc) (p : Prog) :
+    (∀ srv mid, findServer req.protocol (objServers objs) = some srv → req.method = some mid →
+      (handleTimed objs req ex p).1 = if (invoked srv mid ex).isSome then p.waited else 0) ∧
+    (findServer req.protocol (objServers objs) = none → (handleTimed objs req ex p).1 = 0) :=
+  ⟨fun srv mid hs hm => handleTimed_elapsed objs req ex p srv mid hs hm, handleTimed_unregistered_elapsed objs req ex p⟩
+
+/-- the driver's `sreqo` (`serveStepTimed`) is `serveStep` — hence `serve`, hence `C11_sequence` — on these requests -/
+theorem timed_loop_is_serve (objs : List Obj) (alive : Bool) (req : Msg) (ex : Option Exc) (p : Prog) :
+    (serveStepTimed objs alive req ex p).1 =
+      (serveStep (registryOf (objServers objs)) alive (req, handleTimedResult objs req ex p)).1 ∧
+    (serveStepTimed objs alive req ex p).2.map (·.2.2) =
+      (serveStep (registryOf (objServers objs)) alive (req, handleTimedResult objs req ex p)).2 :=
+  serveStepTimed_serveStep objs alive req ex p
+
+/-- a falsy object of a class with one method, a coroutine awaiting 31 s + 1 h and then raising KeyError:
+    answered with PythonCore::KeyError after 3631 s; on a response-less protocol: silence -/
+example : handleTimed [{ srv := { protocol := 10, noresponse := false, methods := [{ id := 1, supported := true, resp := .single false }] }, truthy := false }]
+    { mode := 0, protocol := 10, method := some 1, callId := 9, error := -1, body := [] } none
+    (.wait 31000 (.wait 3600000 (.done (.raises .keyError))))
+    = (3631000, some (.raised .keyError), .sends [10, 0, 0, 0, 10, 0, 7, 0, 4, 0x80, 9, 0, 0, 0]) := by decide
+example : handleTimed [{ srv := { protocol := 14, noresponse := true, methods := [{ id := 1, supported := true, resp := .none }] }, truthy := false }]
+    { mode := 0, protocol := 14, method := some 1, callId := 9, error := -1, body := [] } none
+    (.wait 600000 (.done (.returns .good (.returned []))))
+    = (600000, some (.returned []), .silent) := by decide
 
 end Nx.C11
